@@ -71,7 +71,17 @@ def make_pdf(pages: list[dict], info: dict | None = None) -> bytes:
                 y -= 14
             content += b"ET\n"
         for k, im in enumerate(pg.get("images", []), 1):
-            oid = w.add(w.stream(b"/Type /XObject /Subtype /Image /Width %d /Height %d /ColorSpace /DeviceRGB /BitsPerComponent 8 /Filter /DCTDecode" % (im["w"], im["h"]) + im.get("extra", b""), im["data"]))
+            # the same JPEG behind different (legal) filter chains: the last filter names the image encoding
+            chain = im.get("chain", "plain")
+            payload, filt = im["data"], b"/DCTDecode"
+            if chain == "array1":
+                filt = b"[/DCTDecode]"
+            elif chain == "asciihex":
+                payload, filt = im["data"].hex().encode() + b">", b"[/ASCIIHexDecode /DCTDecode]"
+            elif chain == "flate":
+                import zlib
+                payload, filt = zlib.compress(im["data"]), b"[/FlateDecode /DCTDecode]"
+            oid = w.add(w.stream(b"/Type /XObject /Subtype /Image /Width %d /Height %d /ColorSpace /DeviceRGB /BitsPerComponent 8 /Filter " % (im["w"], im["h"]) + filt + im.get("extra", b""), payload))
             xobjs.append((b"Im%d" % k, oid))
             y -= 60
             content += b"q 50 0 0 50 50 %d cm /Im%d Do Q\n" % (max(y, 20), k)
@@ -122,7 +132,7 @@ def build_pdf(seed: int, feature: str | None = None, twin: bool = False):
             # optional alternate-text entries in the forms a PDF may legally (or sloppily) carry them
             extra = rng.choice([b"", b"", b" /Alt (plain alt text)", b" /Alt (Stra\303\237e raw utf-8)", b" /Alt <FEFF00C400620063>", b" /Alt [1 2]", b" /Title (a title) /Alt ()",
                                 b" /Alt (caf\351 \237 undefined in PDFDocEncoding)", b" /TU /NameObject", b" /Alt 42"])
-            return {"data": data, "w": wpx, "h": hpx, "extra": extra}
+            return {"data": data, "w": wpx, "h": hpx, "extra": extra, "chain": rng.choice(["plain", "plain", "array1", "asciihex", "flate"])}
 
         if feature == "multi-image-pages":
             if twin:
